@@ -34,6 +34,15 @@ pub fn check(t: &Trace<'_>, out: &mut CaseOut) -> bool {
                 o => format!("broker-disconnect-reported-as-{:?}", o).replace(' ', ""),
             });
         }
+        // disconnect() was called with a DISCONNECT that fits the connection's limit (a plain or
+        // reason-only DISCONNECT is at most 4 bytes): refusing it as too large is no local refusal
+        if op.kind == "disconnect" && op.live_before && op.outcome == Outcome::Err(ErrRepr::PacketTooLarge) {
+            let plain = matches!(&t.log.steps[op.step], crate::steps::Step::Disconnect(d) if d.props.as_ref().is_none_or(|p| p.is_empty()));
+            let roomy = op.conn.and_then(|c| t.conns[c].mps).is_none_or(|m| m >= 64);
+            if plain && roomy {
+                return Some("disconnect-called-refused-although-it-fits".into());
+            }
+        }
         latches(op)
     };
     for ci in t.conns.iter().filter(|c| c.established) {
